@@ -10,7 +10,12 @@ judges:   spec/UriTrace.tla          family U  decode / encode / encode_value / 
           spec/BodyStreamTrace.tla   family B  WSGI BoundedStream / ASGI request stream histories                 (C07)
 this file: runs the suite under the recorder (source mode, in place on /repo/tests, falcon from $FALCON_ROOT), dedupes,
           keeps what each judge's model can express (expressible_*: explicit, documented, every skip counted by reason,
-          never accepted), converts the records to the judges' event formats and lets TLC judge them.  Python decides
+          never accepted) and lets TLC judge them.  The judges' event formats are NOT written down here a second time:
+          a recorded function call is made again through the event builder of the check that owns the judge (c10.call,
+          c08.parse_event / render_event: they add the extra calls the judge asks for) and the outcome the suite saw is
+          put in the place of the builder's own; results are projected with c11's helpers; reader / stream traces are
+          assembled on c14._ev / c07._ev / c07.classify, and format_guard() compares their field sets with what
+          c14.run_history / c07.run_case write before anything is judged.  Python decides
           nothing about correctness: it copies observations into the judges' vocabulary (code points, byte lists, the
           abstract syntax of an Accept header) and reads the verdict TLC prints.
 
@@ -920,8 +925,9 @@ def run(ctx):
                 'as non-trivial (it is an input a test author chose)')
     ctx.trusted_base = ['TLC 1.8 evaluation of spec/UriTrace, QueryStringTrace, MediaTypesTrace, CursorTrace, BodyStreamTrace (unchanged)',
                         'engine/suite_recorder_fn.py (transparent wrappers; copies, decides nothing)',
-                        'conversions of checks/g03.py: code points, byte lists, str(int) for integer query values, the '
-                        'strict Accept-header reader (inverse of C11\'s renderer)']
+                        'event builders of checks/c10.py, c08.py, c07.py, c14.py and the projections of c11.py (reused, not copied)',
+                        'conversions of checks/g03.py: code points, byte lists, documented renderings of typed query values, '
+                        'the strict Accept-header reader (inverse of C11\'s renderer)']
     ctx.assumptions = ['the suite is run in place on /repo/tests with falcon imported from $FALCON_ROOT (source mode)',
                        'a reader\'s / stream\'s data is what its source returned while it was observed; a correct reader '
                        'decides from those bytes alone',
